@@ -13,8 +13,8 @@ RULE = ("validations of structurally valid messages (all four QBFT types, decide
         "validators, signed and unsigned era) with every mutation of a table of ~85 single mutations, adversarial "
         "field values (0, 1, 2^62, 2^63, 2^64-1 and their neighbours of the current slot for round/height/slot, "
         "out-of-range types and roles, 0/1/q-1/q/n/n+1/13/14 signers), after prefixes of accepted messages, plus the "
-        "hand-written decoders on their abstract inputs and >= 10^5 random/mutated byte strings on the generated "
-        "decoders; non-trivial = a case whose message under test is not the plain honest message (mutation != none, "
+        "hand-written decoders on their abstract inputs, >= 10^5 random/mutated byte strings on the generated "
+        "decoders and the metrics-label stream; non-trivial = a case whose message under test is not the plain honest message (mutation != none, "
         "adversarial values, history with replays) or a decoder case; distinct by op lines")
 TRUSTED_BASE = [
     "modelled, not verified: message/validation/*.go, network/commons/common.go (DecodeSignedSSVMessage), "
@@ -106,6 +106,7 @@ LEVEL_TEXT = ("Machine-checked theorems: for every configuration with committees
 LEVEL_NOTE = ("PARTIAL for 'hanging or allocating without bound' and for the generated SSZ/JSON/envelope decoders: these "
               "are exercised (>= 10^5 byte strings per run under recover(), deadline and allocation bound), not proved. "
               "Trusted: Coq kernel + vm_compute, extraction, OCaml/Go drivers, the abstraction of a message to the "
-              "envelope record with oracle bits, the re-statement of Go's time arithmetic. Observation (outside the "
-              "anchors, not asserted): with the real metrics reporter every distinct attacker-chosen round value "
-              "creates a new Prometheus label set in ValidatePubsubMessage.")
+              "envelope record with oracle bits, the re-statement of Go's time arithmetic. 'Allocating without bound' is "
+              "checked for one concrete mechanism only (F11, repaired): 3 x 10^5 messages with distinct attacker-chosen "
+              "round / message-type values through ValidatePubsubMessage with the REAL metrics reporter must leave less "
+              "than 20 MiB of live heap behind (the defect left 148 MB).")
